@@ -466,6 +466,15 @@ Proof.
   apply add_nli_quality; [apply att_inv; assumption|assumption|assumption].
 Qed.
 
+Lemma multi_claim ops c : cprog_okb KMulti ops = true -> Inv c -> WfOps c ops -> only_ase (crun ops c) c.
+Proof.
+  unfold cprog_okb; cbn [prog_kinds_okb]. rewrite !Bool.orb_true_iff. intros [[H|H]|H] Hi Hw.
+  - apply kinds_eqb_eq in H. destruct ops; [|discriminate H]. cbn [crun fold_left].
+    unfold only_ase, ratio_eq, ratio_le. repeat split; try reflexivity; apply Qle_refl.
+  - apply edfa_claim; [|assumption|assumption]. unfold cprog_okb; cbn [prog_kinds_okb]. rewrite H. reflexivity.
+  - apply edfa_claim; [|assumption|assumption]. unfold cprog_okb; cbn [prog_kinds_okb]. rewrite H. apply Bool.orb_true_r.
+Qed.
+
 Lemma elem_quality k ops c : cprog_okb k ops = true -> Inv c -> WfOps c ops -> elem_claim k (crun ops c) c.
 Proof.
   intros H Hi Hw. destruct k; cbn [elem_claim].
@@ -477,7 +486,7 @@ Proof.
   - destruct (run_inv ops c Hi Hw) as (_ & _ & _).
     apply qdom_quality; [apply run_qdom; assumption|]. destruct Hi as (_ & Hs & _). exact Hs.
   - apply edfa_claim; assumption.
-  - apply edfa_claim; assumption.
+  - apply multi_claim; assumption.
 Qed.
 
 (* every element claim implies "not better" *)
@@ -656,7 +665,7 @@ Proof.
     1-2: (induction (map kind_of ops) as [|x l IH]; [reflexivity|];
           cbn [forallb] in *; apply Bool.andb_true_iff in H; destruct H as [H1 H2];
           apply okind_eqb_eq in H1; subst x; cbn; apply IH, H2).
-    1-2: (apply Bool.orb_true_iff in H; destruct H as [H|H]; apply kinds_eqb_eq in H; rewrite H; reflexivity). }
+    1-2: (rewrite !Bool.orb_true_iff in H; repeat (destruct H as [H|H]); apply kinds_eqb_eq in H; rewrite H; reflexivity). }
   clear H. induction ops as [|o t IH]; [reflexivity|].
   cbn [map forallb] in *. apply Bool.andb_true_iff in Hall. destruct Hall as [H1 H2].
   rewrite (IH H2), Bool.andb_true_r. destruct o; cbn in *; congruence.
@@ -682,8 +691,8 @@ Proof.
   destruct Hin as [E|Hin]; [injection E as <- <- <-; exact A|apply IH; assumption].
 Qed.
 
-Lemma edfa_call_chan lo hi ops sp r : sprog_okb KEdfa ops = true -> edfa_call lo hi ops sp = Ok r ->
-  forall c', In c' r -> exists c cops, In c sp /\ c' = crun cops c /\ cprog_okb KEdfa cops = true /\
+Lemma edfa_call_chan k lo hi ops sp r : sprog_okb k ops = true -> edfa_call lo hi ops sp = Ok r ->
+  forall c', In c' r -> exists c cops, In c sp /\ c' = crun cops c /\ cprog_okb k cops = true /\
                                       (swfb (demux lo hi sp) ops = true -> WfOps c cops).
 Proof.
   intros Hk H c' Hin. unfold edfa_call in H. destruct (is_nil (demux lo hi sp)); [discriminate|].
@@ -705,14 +714,14 @@ Proof.
     exists c, cops. split; [exact Hc|]. split; [exact Heq|]. split; [|exact Hw].
     unfold cprog_okb. rewrite Hkk. exact Hp. }
   destruct k, e as [ops|lo hi ops|amps]; cbn [eprog_okb] in Hk; try discriminate; try (eapply Flat; eauto; fail).
-  - (* Edfa *) cbn [erun ewfb] in *. eapply edfa_call_chan; eauto.
+  - (* Edfa *) cbn [erun ewfb] in *. eapply (edfa_call_chan KEdfa); eauto.
   - (* Multiband *) cbn [erun ewfb] in *.
     apply bind_ok in H. destruct H as (outs & H1 & H2). destruct (is_nil outs); [discriminate|].
     apply mux_perm in H2. eapply Permutation_in in Hin; [|exact H2]. apply in_concat in Hin.
     destruct Hin as (o & Ho & Hco).
     destruct (multi_outs_in amps sp outs H1 o Ho) as (lo & hi & ops & Hamp & Hcall).
     rewrite forallb_forall in Hk. specialize (Hk _ Hamp). cbn [snd] in Hk.
-    destruct (edfa_call_chan lo hi ops _ o Hk Hcall c' Hco) as (c & cops & Hc & Heq & Hkk & Hw).
+    destruct (edfa_call_chan KMulti lo hi ops _ o Hk Hcall c' Hco) as (c & cops & Hc & Heq & Hkk & Hw).
     exists c, cops. apply demux_keep in Hc. split; [tauto|]. split; [exact Heq|]. split; [exact Hkk|].
     intros Hwf. apply Hw. eapply multi_wfb_in; eauto.
 Qed.
